@@ -431,6 +431,55 @@ fn overshoot_cases<W: Write>(out: &mut W, prop: &str, rng: &mut Rng) {
     }
 }
 
+/// a media box whose 64-bit size is 2^64 - j: its end wraps to j bytes BEFORE its own header.  The bytes from there on
+/// are laid out so that they parse as a movie box that swallows the media header (in a `free` child) and ends exactly
+/// at the end of the input: a skip that lets the sum wrap, or that turns the amount into a negative relative seek,
+/// resumes on a box boundary and accepts the file - with a media span of almost 2^64 bytes in a 100-byte input.
+/// Variants land elsewhere (inside the header, at the start of the file, before it) or do not wrap at all.
+fn wrapback_cases<W: Write>(out: &mut W, prop: &str, rng: &mut Rng) {
+    let ftyp = bx(b"ftyp", &ftyp_payload(rng, true, 2, 0), Enc::S32);
+    let cfg = Cfg::default();
+    for (mi, media) in [b"mdat", b"free", b"skip"].iter().enumerate() {
+        let t = TrakSpec { co64: mi % 2 == 1, entries: vec![rng.below(90), rng.below(90)], junk: 0, enc: [Enc::S32; 5], dup: 0 };
+        let trak = bx(b"trak", &trak_payload(rng, &t), Enc::S32);
+        // X = movie header + header of a free child whose payload is the 16-byte media header that follows
+        let moov_size = (8 + 8 + 16 + trak.len()) as u32;
+        let mut x = Vec::new();
+        x.extend(moov_size.to_be_bytes());
+        x.extend(b"moov");
+        x.extend(24u32.to_be_bytes());
+        x.extend(b"free");
+        let pre = bx(b"free", &x, Enc::S32);
+        let o = (ftyp.len() + pre.len()) as u64; // offset of the media header
+        let lead = if **media == *b"mdat" { vec![] } else { bx(b"mdat", &[1, 2, 3], Enc::S32) };
+        for (jn, j) in [("hit", 16u64), ("in", 8), ("odd", 17), ("pre", 24), ("start", o + lead.len() as u64), ("before", o + lead.len() as u64 + 1), ("one", 1)] {
+            for (sn, size) in [("wrap", 0u64.wrapping_sub(j)), ("half", (1u64 << 63) + j), ("max63", (1u64 << 63) - j)] {
+                let mut bytes = Vec::new();
+                if jn == "hit" || jn == "in" || jn == "odd" || jn == "pre" {
+                    // the lead-in media box goes in front of the prepared free box, so that X stays adjacent to the header
+                    bytes.extend(&ftyp);
+                    bytes.extend(&lead);
+                    bytes.extend(&pre);
+                } else {
+                    bytes.extend(&ftyp);
+                    bytes.extend(&pre);
+                    bytes.extend(&lead);
+                }
+                bytes.extend(1u32.to_be_bytes());
+                bytes.extend(**media);
+                bytes.extend(size.to_be_bytes());
+                bytes.extend(&trak);
+                let s = Sparse::from_bytes(&bytes);
+                for kind in [Kind::Seekable, Kind::Strict] {
+                    for carrier in 0..4u64 {
+                        emit_carrier(out, prop, &format!("wrapback-{}-{jn}-{sn}-{}-c{carrier}", std::str::from_utf8(*media).unwrap(), kind.name()), &s, &cfg, kind, carrier);
+                    }
+                }
+            }
+        }
+    }
+}
+
 /// chunk-offset tables whose entry count crosses the 8- and 16-bit boundaries (a table of 65536 32-bit entries is
 /// 256 KiB: an hour of video at one chunk per 50 ms), next to a small table in a second track; media before the
 /// movie box, so every entry is relocated
@@ -476,6 +525,7 @@ pub fn run<W: Write>(prop: &str, opts: &Opts, out: &mut W) {
                 overrun_cases(out, prop, &mut rng);
                 header_form_cases(out, prop, &mut rng);
                 overshoot_cases(out, prop, &mut rng);
+                wrapback_cases(out, prop, &mut rng);
             }
             "C03" => {
                 eof_mdat_cases(out, prop, &mut rng);
@@ -483,6 +533,7 @@ pub fn run<W: Write>(prop: &str, opts: &Opts, out: &mut W) {
                 top_pathologies(out, prop, &mut rng);
                 header_form_cases(out, prop, &mut rng);
                 overshoot_cases(out, prop, &mut rng);
+                wrapback_cases(out, prop, &mut rng);
             }
             "C01" | "C02" | "C04" => {
                 many_entries(out, prop, &mut rng);
